@@ -623,8 +623,101 @@ def run_hip_used(unit):
         yield log.result()
 
 
+# ---- the clients' params dictionaries: what reaches the reader is the value the caller passed ------------------------------------------
+def run_client_params(unit):
+    """GeophiresInputParameters(params=...) / HipRaInputParameters(dict) write an input file from a dictionary; a value passed as a Python
+    float must reach the reader as that value: one line per entry (none dropped, whatever the value - zero included), the number written
+    with a round-trip-exact rendering (str / repr), so that an out-of-range value cannot be rounded onto a bound on the way in."""
+    import os as _os
+    from geophires_x_client import GeophiresInputParameters
+    from hip_ra import HipRaInputParameters
+    EXACT = ('str', 'repr', '', 'r')
+
+    class TokFloat(float):
+        """a Python float (isinstance(x, float) holds) whose renderings are provenance tokens and whose truth value is decided by the solver."""
+        def __new__(cls, sym_):
+            o = float.__new__(cls, 1.5)
+            o.sym = sym_
+            return o
+
+        def __str__(self):
+            return str(self.sym)
+
+        def __repr__(self):
+            return repr(self.sym)
+
+        def __format__(self, spec):
+            return format(self.sym, spec)
+
+        def __bool__(self):
+            return bool(self.sym)
+
+        def __eq__(self, o):
+            return self.sym == o
+
+        def __hash__(self):
+            return 0
+    for which, make, names in (('GeophiresInputParameters(params=...)', lambda d: GeophiresInputParameters(d), ('Reservoir Depth', 'Maximum Temperature')),
+                               ('HipRaInputParameters(dict)', lambda d: HipRaInputParameters(d), ('Reservoir Porosity', 'Recoverable Fluid Factor'))):
+        cfg = {'layer': 'client-params', 'class': which}
+        log = harness.UnitLog(cfg)
+
+        def build(vals, make=make, names=names):
+            d = {names[0]: vals[0], 'Print Output to Console': 0, names[1]: vals[1]}
+            ip = make(d)
+            pth = str(ip.as_file_path())
+            try:
+                with open(pth, encoding='UTF-8') as f:
+                    return f.read()
+            finally:
+                try:
+                    _os.unlink(pth)
+                except OSError:
+                    pass
+
+        def concrete(inp, build=build, names=names, only=None):
+            vals = [float(inp.get('v0', 0.0)), float(inp.get('v1', 0.0))]
+            bad = []
+            for vs in (vals, [0.0, vals[1]], [vals[0], 0.0], [600.0000000000001, 0.1234567890123456]):
+                text = build(vs)
+                rows = {ln.split(',')[0].strip(): ln.split(',', 1)[1].strip() for ln in text.splitlines() if ',' in ln}
+                for n, v in zip(names, vs):
+                    if n not in rows:
+                        bad.append(('dropped', n, v))
+                    elif float(rows[n]) != v:
+                        bad.append(('altered', n, v, rows[n]))
+            if only == 'dropped':
+                bad = [b for b in bad if b[0] == 'dropped']
+            if only == 'altered':
+                bad = [b for b in bad if b[0] == 'altered']
+            return bool(bad), {'problems (kind, name, value passed, text written)': bad[:4]}
+        zv = {'v0': z3.Real('v0'), 'v1': z3.Real('v1')}
+        k = 0
+        for pr in core.explore(lambda: build([TokFloat(core.sym('v0')), TokFloat(core.sym('v1'))]), max_paths=64):
+            log.path(pr)
+            k += 1
+            if pr.error is not None:
+                raise pr.error
+            if pr.aborted:
+                continue
+            harness.reachable(log, pr.ctx, 500)
+            text = pr.value
+            rows = {ln.split(',')[0].strip(): ln.split(',', 1)[1] for ln in text.splitlines() if ',' in ln}
+            for j, n in enumerate(names):
+                present = n in rows
+                harness.discharge(log, pr.ctx, f'{which}: the entry "{n}" reaches the input file whatever its value', present, zv,
+                                  lambda inp, concrete=concrete: concrete(inp, only='dropped'), sample=(k == 1 and j == 0))
+                if not present:
+                    continue
+                tk = core.unmark(rows[n])
+                ok = tk is not None and tk[1] in EXACT and z3.eq(z3.simplify(tk[0]), z3.simplify(z3.Real(f'v{j}')))
+                harness.discharge(log, pr.ctx, f'{which}: the value of "{n}" is written with a round-trip-exact rendering of the value passed (no rounding on the way in)',
+                                  bool(ok), zv, lambda inp, concrete=concrete: concrete(inp, only='altered'))
+        yield log.result()
+
+
 def units(tier, seed):
-    us = [{'layer': 'hip-calculate'}]
+    us = [{'layer': 'hip-calculate'}, {'layer': 'client-params'}]
     srcs = list(gx.SOURCE_CLASSES) + [('hip_ra_x.hip_ra_x', 'HIP_RA_X')]
     for modn, clsn in srcs:
         us.append({'layer': 'reader', 'module': modn, 'cls': clsn})
@@ -636,7 +729,9 @@ def units(tier, seed):
 
 
 def run_unit(unit):
-    if unit['layer'] == 'hip-calculate':
+    if unit['layer'] == 'client-params':
+        yield from run_client_params(unit)
+    elif unit['layer'] == 'hip-calculate':
         yield from run_hip_used(unit)
     elif unit['layer'] == 'units':
         yield from run_units_layer(unit)
@@ -648,7 +743,7 @@ def replay(cex):
     cfg = cex['config']
     srcs = dict((c, m) for m, c in list(gx.SOURCE_CLASSES) + [('hip_ra_x.hip_ra_x', 'HIP_RA_X')])
     modn = srcs[cfg['class']]
-    if cfg['layer'] in ('units', 'hip-calculate'):
+    if cfg['layer'] in ('units', 'hip-calculate', 'client-params'):
         raise NotImplementedError
     val = cex['inputs'].get('v', cex['inputs'].get('k'))
     if isinstance(val, str):
